@@ -117,7 +117,7 @@ def _decode_trace_leg(rep, tier, pid):
     from concurrent.futures import ProcessPoolExecutor
     from .common import NCPU, seed
     from . import schema as S
-    per = (4, 3, 6) if tier == "quick" else (12, 4, 10)
+    per = ((3, 2, 5) if pid == "C01" else (4, 3, 6)) if tier == "quick" else (12, 4, 10)
     jobs = [(seed() * 1000 + 500 + w, per[0], per[1], per[2], {"scratch": scratch_dir("dr")}) for w in range(NCPU)]
     recs = []
     with ProcessPoolExecutor(max_workers=NCPU) as ex:
@@ -364,7 +364,7 @@ def c06(tier, replay):
 # ---------------------------------------------------------------------------
 # C++ full codec legs
 # ---------------------------------------------------------------------------
-def _select_cpp(groups, tier, cap_quick=600, cap_thorough=12000):
+def _select_cpp(groups, tier, cap_quick=450, cap_thorough=12000):
     """C++ compile time bounds the number of schemas (about 10 ms each)."""
     import random
     cap = cap_quick if tier == "quick" else cap_thorough
